@@ -59,6 +59,7 @@ class CohGen:
             class_enum_default=(target == 'matlab'),    # D40 (pybind): default value of the class's own enum type
             typedefs=True,
             serialize_p=0.0,            # probability that a class declares the serialize() marker
+            split_overloads=False,      # D50 (matlab): overloads of a free function in two blocks of one namespace
             reopen_ns=0.25,             # a namespace written as two adjacent blocks (D6, repaired)
         )
         f.update(features)
@@ -535,6 +536,17 @@ class CohGen:
             sub = self.reopen(it.items)
             if len(sub) >= 2 and self.r.random() < self.f['reopen_ns']:
                 cut = self.r.randint(1, len(sub) - 1)
+                names = lambda part: {x.name for x in part if x.k == 'Func'}
+                if self.target == 'matlab' and not self.f['enum_other_scope'] and any(x.k == 'Enum' for x in sub):
+                    # D31: the MATLAB generator recognises a namespace-level enum only in the namespace block that
+                    # declares it
+                    out.append(S.Namespace(it.name, tuple(sub)))
+                    continue
+                if self.target == 'matlab' and not self.f['split_overloads'] and names(sub[:cut]) & names(sub[cut:]):
+                    # D50: the MATLAB generator writes one function file per namespace *block*; overloads of one
+                    # name in two blocks of the same namespace overwrite each other
+                    out.append(S.Namespace(it.name, tuple(sub)))
+                    continue
                 # adjacent blocks: the declaration order (bases before derived classes) is unchanged
                 out.append(S.Namespace(it.name, tuple(sub[:cut])))
                 out.append(S.Namespace(it.name, tuple(sub[cut:])))
